@@ -105,8 +105,8 @@ Fixpoint trim_left_crlf (s : str) : str :=
   | b :: r => if is_crlf b then trim_left_crlf r else s
   | [] => []
   end.
-(* strings.TrimFunc(raw, cutCRFunc) *)
-Definition trim_crlf (s : str) : str := rev (trim_left_crlf (rev (trim_left_crlf s))).
+(* strings.TrimFunc(raw, cutCRFunc); rev' is the linear-time reverse (= rev) *)
+Definition trim_crlf (s : str) : str := rev' (trim_left_crlf (rev' (trim_left_crlf s))).
 
 (* splitParams: strings.Split on SPACE, empty pieces dropped *)
 Definition split_params (s : str) : list str :=
@@ -134,50 +134,58 @@ Fixpoint trailer_loop (fuel : nat) (raw : str) (j trailer : nat) : res (option n
     end
   end.
 
+(* the optional prefix: Ok None = nil result; Ok (Some (src, i)) = source and the value
+   of i (start of the command) afterwards *)
+Definition parse_event_prefix (raw : str) : res (option (option wsource * nat)) :=
+  match raw with
+  | c :: _ =>
+    if c =? 58 then
+      match index_byte 32 raw with
+      | Some i =>
+        if Nat.ltb i 2 then Ok None
+        else
+          s <- slice raw 1 i ;;
+          src <- wparse_source s ;;
+          Ok (Some (Some src, S i))
+      | None => Ok None                       (* i = -1 < 2 *)
+      end
+    else Ok (Some (None, 0%nat))
+  | [] => Ok (Some (None, 0%nat))
+  end.
+
+(* command and parameters: raw[i:] *)
+Definition parse_event_rest (tags : wtags) (src : option wsource) (raw : str) (i : nat)
+  : res (option wevent) :=
+  rest <- slice_from raw i ;;
+  match index_byte 32 rest with
+  | None =>                                         (* j < i: command only *)
+    Ok (Some (mkWEvent tags src (go_to_upper rest) []))
+  | Some k =>
+    let j := (i + k)%nat in
+    cmd <- slice raw i j ;;
+    let j := S j in
+    tr <- trailer_loop (S (length raw)) raw j 0 ;;
+    match tr with
+    | None =>
+      ps <- slice_from raw j ;;
+      Ok (Some (mkWEvent tags src (go_to_upper cmd) (split_params ps)))
+    | Some i0 =>
+      let i := (j + i0)%nat in
+      mids <- (if Nat.ltb j i then
+                 (if Nat.eqb i 0 then Panic else
+                  m <- slice raw j (i - 1) ;; Ok (split_params m))
+               else Ok []) ;;
+      last <- slice_from raw (i + 1) ;;
+      Ok (Some (mkWEvent tags src (go_to_upper cmd) (mids ++ [last])))
+    end
+  end.
+
 (* everything after the optional tags: raw is the remaining line *)
 Definition parse_event_body (tags : wtags) (raw : str) : res (option wevent) :=
-  (* optional prefix *)
-  pre <- match raw with
-         | c :: _ =>
-           if c =? 58 then
-             match index_byte 32 raw with
-             | Some i =>
-               if Nat.ltb i 2 then Ok None
-               else
-                 s <- slice raw 1 i ;;
-                 src <- wparse_source s ;;
-                 Ok (Some (Some src, S i))
-             | None => Ok None                       (* i = -1 < 2 *)
-             end
-           else Ok (Some (None, 0%nat))
-         | [] => Ok (Some (None, 0%nat))
-         end ;;
+  pre <- parse_event_prefix raw ;;
   match pre with
   | None => Ok None
-  | Some (src, i) =>
-    rest <- slice_from raw i ;;
-    match index_byte 32 rest with
-    | None =>                                         (* j < i: command only *)
-      Ok (Some (mkWEvent tags src (go_to_upper rest) []))
-    | Some k =>
-      let j := (i + k)%nat in
-      cmd <- slice raw i j ;;
-      let j := S j in
-      tr <- trailer_loop (S (length raw)) raw j 0 ;;
-      match tr with
-      | None =>
-        ps <- slice_from raw j ;;
-        Ok (Some (mkWEvent tags src (go_to_upper cmd) (split_params ps)))
-      | Some i0 =>
-        let i := (j + i0)%nat in
-        mids <- (if Nat.ltb j i then
-                   (if Nat.eqb i 0 then Panic else
-                    m <- slice raw j (i - 1) ;; Ok (split_params m))
-                 else Ok []) ;;
-        last <- slice_from raw (i + 1) ;;
-        Ok (Some (mkWEvent tags src (go_to_upper cmd) (mids ++ [last])))
-      end
-    end
+  | Some (src, i) => parse_event_rest tags src raw i
   end.
 
 (* ParseEvent: Ok None is the nil result *)
@@ -202,3 +210,22 @@ Definition parse_event (raw0 : str) : res (option wevent) :=
 (* what ParseEvent hands to time.Parse(capServerTimeFormat, .): Tags.Get("time") *)
 Definition tag_time : str := Eval vm_compute in bs "time".
 Definition server_time_raw (e : wevent) : option str := tags_get (we_tags e) tag_time.
+
+(* The timestamp ParseEvent assigns.  time.Parse(capServerTimeFormat, .) is not modelled:
+   it is a parameter (together with its result type).  FromServer t: the parsed server
+   time; LocalNow: time.Now() at the moment of the call. *)
+Section Timestamp.
+  Variable T : Type.
+  Variable parse_time : str -> option T.
+
+  Inductive wstamp : Type := FromServer (t : T) | LocalNow.
+
+  Definition event_timestamp (e : wevent) : wstamp :=
+    match server_time_raw e with
+    | Some v => match parse_time v with Some t => FromServer t | None => LocalNow end
+    | None => LocalNow
+    end.
+End Timestamp.
+Arguments FromServer {T} _.
+Arguments LocalNow {T}.
+Arguments event_timestamp {T} _ _.
